@@ -176,6 +176,22 @@ func main() {
 	progress := fs.String("progress", "", "progress journal file (for the watchdog)")
 	known := fs.String("known", "", "regular expression of violation signatures that are open known findings")
 	fs.Parse(os.Args[2:])
+	if hp := os.Getenv("VERIF_HEAPPROFILE"); hp != "" {
+		// development aid: one heap profile when the heap first exceeds 1.5 GB
+		go func() {
+			for {
+				time.Sleep(200 * time.Millisecond)
+				var ms runtime.MemStats
+				runtime.ReadMemStats(&ms)
+				if ms.HeapAlloc > 1500<<20 {
+					f, _ := os.Create(hp)
+					pprof.WriteHeapProfile(f)
+					f.Close()
+					return
+				}
+			}
+		}()
+	}
 	if pf := os.Getenv("VERIF_CPUPROFILE"); pf != "" {
 		// development aid: CPU profile of a worker (os.Exit skips deferred calls,
 		// so the profile is stopped explicitly)
